@@ -144,12 +144,16 @@ impl<T: Default + Clone> DimArray<T> {
             return Err(InterpreterError::BadSubscript);
         }
         let mut dimensions = Vec::with_capacity(max_indices.len());
-        let mut total_elements = 1;
+        let mut total_elements: usize = 1;
         for &max_index in max_indices {
             // DIM declarations in BASIC represent the maximum index along each axis,
             // not the size along each axis, so we have to increment the number by 1.
-            let dimension_size = max_index + 1;
-            total_elements *= dimension_size;
+            let dimension_size = max_index
+                .checked_add(1)
+                .ok_or(OutOfMemoryError::ArrayTooLarge)?;
+            total_elements = total_elements
+                .checked_mul(dimension_size)
+                .ok_or(OutOfMemoryError::ArrayTooLarge)?;
             dimensions.push(dimension_size);
         }
         if total_elements > MAX_DIM_TOTAL_ELEMENTS {
